@@ -152,6 +152,9 @@ def run(tier):
     for b_ in list(range(1, 32)) + [127]:
         if b_ in (10, 13): continue
         boundary += ['"ab%scd"' % chr(b_), "'%s'" % chr(b_), "x %s y" % chr(b_)]
+    for big in ("340282366920938463463374607431768211456", "3402823669209384634633746074317682114550", "9" * 40, "0x1" + "0" * 32, "0x" + "f" * 33, "0b1" + "0" * 128, "1" + "0" * 39, "1" + "0" * 45):
+        for sfx in ("q", "u129", "u7", "i", "u128", "i128", "usize", "x1", "_", "u8u8"):
+            boundary.append(big + sfx)
     boundary += ["9" * n for n in (38, 39, 40, 60)] + ["1" + "0" * n for n in (37, 38, 39, 40)] + ["0x" + "f" * n for n in (31, 32, 33)] + ["0b" + "1" * n for n in (127, 128)]
     for n in range(0, 9):
         hexs = "10FFFF00"[:n] if n else ""
